@@ -54,6 +54,15 @@ def run_variant(item):
     shutil.copytree(os.path.join(REPO, "qkeras"),
                     os.path.join(base, "qkeras"),
                     ignore=shutil.ignore_patterns("__pycache__"))
+    if isinstance(edits, str):
+      # an independently seeded change kept as a unified diff
+      r = subprocess.run(["patch", "-p1", "-s", "-d", base, "-i", edits],
+                         capture_output=True, text=True)
+      if r.returncode != 0:
+        return name, kind, "EDIT-ERROR", "patch does not apply: %s" % (
+            r.stdout + r.stderr)[:200], {}
+      edits = []
+      kind_ = "mutant"
     for e in edits:
       err = apply_edit(base, e)
       if err:
@@ -78,6 +87,8 @@ def run_variant(item):
           first = line[:260]
           break
       results[p] = (r.returncode, first)
+      if name.startswith("seed:") and r.returncode == 1:
+        break   # reported; the remaining checks are not needed
     if kind == "mutant":
       hit = [p for p, (rc, _) in results.items() if rc == 1]
       verdict = "DETECTED" if hit else (
@@ -98,6 +109,8 @@ def main():
   ap.add_argument("--benign-all-props", action="store_true",
                   help="run all 20 properties on benign variants")
   ap.add_argument("--json", default=None)
+  ap.add_argument("--seeds", action="store_true",
+                  help="also replay the seeded changes under /verif/seeded")
   args = ap.parse_args()
   items = []
   for name, m in sorted(MUTANTS.items()):
@@ -105,6 +118,15 @@ def main():
   for name, b in sorted(BENIGN.items()):
     props = ALL_PROPS if args.benign_all_props else b.get("props", ALL_PROPS)
     items.append((name, b["edits"], props, "benign"))
+  if args.seeds:
+    sdir = os.path.join(ROOT, "seeded")
+    for label in sorted(os.listdir(sdir)):
+      pth = os.path.join(sdir, label, "patch.diff")
+      if os.path.exists(pth):
+        own = label.split("-")[0]
+        # the seed's own property first, then every other check
+        items.append(("seed:" + label, pth,
+                      [own] + [q for q in ALL_PROPS if q != own], "mutant"))
   if args.only:
     items = [i for i in items if i[0] in args.only]
   out = []
